@@ -16,9 +16,19 @@ Definition run (args : list bytes) : bytes :=
     | Exn e => out_exn e
     | Ok n => out_Z n ++ [32%N] ++ show_str (convert_version_to_str n)
     end
+  else if is_op "str_roundtrip" op then
+    match convert_version_to_int_str (nth_arg args 1) with
+    | Exn e => out_exn e
+    | Ok n => out_Z n ++ [32%N] ++ show_str (convert_version_to_str n)
+    end
   else if is_op "order" op then
     out_res out_Z (tuple_to_int (csv_Z (nth_arg args 1))) ++ [32%N] ++ out_res out_Z (tuple_to_int (csv_Z (nth_arg args 2)))
   else if is_op "to_int_str" op then out_res out_Z (convert_version_to_int_str (nth_arg args 1))
+  else if is_op "to_tuple" op then
+    out_opt (out_list out_Z) (version_to_tuple (nth_arg args 1))
+  else if is_op "int" op then out_opt out_Z (py_int (nth_arg args 1))
+  else if is_op "suffix" op then
+    out_res out_Z (convert_version_to_int_str (nth_arg args 1)) ++ [32%N] ++ out_res out_Z (convert_version_to_int_str (nth_arg args 2))
   else if is_op "to_str" op then show_str (convert_version_to_str (arg_Z (nth_arg args 1)))
   else if is_op "parse_pred" op then
     out_opt (out_list (fun p => out_op (fst p) ++ [32%N] ++ snd p)) (parse_predicates (nth_arg args 1))
